@@ -6,7 +6,7 @@ use crate::props::c14::{knot_spec, resolve_x, x_spec, KnotSpec, XSpec};
 use crate::util::*;
 use proptest::prelude::*;
 use rateslib::dual::{Dual, Dual2, Gradient1, Gradient2, Number, NumberMapping};
-use rateslib::splines::{bspldnev_single_dual, bspldnev_single_dual2, bsplev_single_dual, bsplev_single_dual2, PPSpline};
+use rateslib::splines::{bspldnev_single_dual, bspldnev_single_dual2, bspldnev_single_f64, bsplev_single_dual, bsplev_single_dual2, PPSpline};
 use serde::{Deserialize, Serialize};
 
 #[derive(Clone, Debug, Serialize, Deserialize)]
@@ -50,6 +50,12 @@ pub struct Case {
     /// many places, reversed if the top bit is set; 0 = ascending as built
     #[serde(default)]
     pub site_perm: u16,
+    /// Some(n): instead of solving, a spline on a LONG knot sequence (257 + n % 120 interior knots, some
+    /// repeated) with given coefficients is evaluated at its first knot, at knots of every
+    /// multiplicity, between knots and at the right end, for every derivative order, against the
+    /// sum of coefficients x basis functions
+    #[serde(default)]
+    pub long_eval: Option<u16>,
 }
 
 pub struct C15;
@@ -124,7 +130,7 @@ fn case_strategy() -> impl Strategy<Value = Case> {
                     knots.interior.push((2, 1));
                 }
             }
-            Case { knots, layout, data, data_kind, evals, lsq_extra, abscissa, rescale_exp, site_perm }
+            Case { knots, layout, data, data_kind, evals, lsq_extra, abscissa, rescale_exp, site_perm, long_eval: None }
         })
 }
 
@@ -195,6 +201,63 @@ impl Property for C15 {
 
     fn check(&self, c: &Case) -> Verdict {
         let mut v = Verdict::new();
+        if let Some(extra) = c.long_eval {
+            v.label("long-knot-sequence:evaluation");
+            v.nt(true);
+            let k = c.knots.order().max(2);
+            let interior = 257 + (extra as usize % 120);
+            let mut t = vec![0.0; k];
+            for i in 1..=interior {
+                let mult = match (i + extra as usize) % 11 { 0 => (k - 1).max(1), 5 => 2.min((k - 1).max(1)), _ => 1 };
+                for _ in 0..mult {
+                    t.push(i as f64 * 0.25);
+                }
+            }
+            let end = (interior + 1) as f64 * 0.25;
+            t.extend(std::iter::repeat(end).take(k));
+            let n = t.len() - k;
+            let data: Vec<f64> = match &c.data { Data::Random(v) => fls(v), Data::Poly(v) => fls(v) };
+            let coef: Vec<f64> = (0..n).map(|i| data[i % data.len()] + 0.25 * ((i % 5) as f64)).collect();
+            let sp = PPSpline::<f64>::new(k, t.clone(), Some(coef.clone()));
+            let mut xs: Vec<f64> = vec![t[0], end, 0.125, t[k], t[k] + 0.1];
+            for (j, e) in c.evals.iter().enumerate() {
+                let x = resolve_x(&c.knots.knots(), e);
+                let frac = if x.is_finite() { (x.abs() * 0.37 + j as f64 * 0.11).fract() } else { 0.5 };
+                let idx = (frac * interior as f64) as usize;
+                xs.push((idx as f64) * 0.25);           // a knot (or the left end)
+                xs.push((idx as f64) * 0.25 + 0.07);    // inside a span
+            }
+            for i in [5usize, 11, 16, 22, 27] {
+                xs.push(((i + extra as usize % 11) as f64) * 0.25); // knots of the repeated kinds
+            }
+            for x in xs.into_iter().filter(|x| *x >= 0.0 && *x <= end) {
+                for m in 0..=k {
+                    let (mut exp, mut mag) = (0.0, 0.0);
+                    for i in 0..n {
+                        let b = bspldnev_single_f64(&x, i, &k, &t, m, None);
+                        exp += coef[i] * b;
+                        mag += (coef[i] * b).abs();
+                    }
+                    match catch(|| sp.ppdnev_single(&x, m)) {
+                        Ok(Ok(g)) => {
+                            if !((g - exp).abs() <= 1e-10 * mag + 1e-300) {
+                                v.fail("spline evaluation differs from coefficients x basis functions on a long knot sequence", format!("k={} knots={} x={:?} m={}: {:e} vs {:e}", k, t.len(), x, m, g, exp));
+                                return v;
+                            }
+                        }
+                        Ok(Err(_)) => {
+                            v.fail("evaluating a solved spline returned an error", format!("long knot sequence, x={:?}", x));
+                            return v;
+                        }
+                        Err(p) => {
+                            v.fail(format!("ppdnev_single | panic | {}", p.site()), p.message);
+                            return v;
+                        }
+                    }
+                }
+            }
+            return v;
+        }
         let s = setup(c);
         let (k, t, n) = (s.k, &s.t, s.n);
         let reference = basis(k, t);
@@ -836,11 +899,17 @@ impl Property for C15 {
     }
 
     fn plan(&self, tier: Tier) -> Vec<Stage<Case>> {
-        vec![Stage::random("random", tier.pick(120_000, 4_000_000), case_strategy)]
+        vec![
+            Stage::random("random", tier.pick(120_000, 4_000_000), case_strategy),
+            Stage::random("long-knot-sequences", tier.pick(400, 20_000), || (case_strategy(), any::<u16>()).prop_map(|(mut c, e)| {
+                c.long_eval = Some(e);
+                c
+            })),
+        ]
     }
 
     fn rule(&self) -> String {
-        "random (order 2-6, knot sequence as in C14, site layout: Greville sites with end rows of derivative order 0-2, or for order 4 with distinct interior knots the callers' natural / clamped layout [a,a,interior knots,b,b] with second / first derivative end conditions; data: random floats or samples of a random polynomial of degree < k with matching end-derivative values; data kind float / first-order / second-order with datum j tagged y{j}; optional 1-6 extra sites solved by least squares; 1-4 evaluation points as in C14). Site sets are admissible by construction; draws whose collocation matrix has cond >= 1e8 (own estimate) are skipped and counted. Oracle: coefficients x reference basis (C14 model) reproduce every data row and end condition; an object solved before on other data (and through a failed call) ends with bit-identical coefficients; in a third of the draws the interior data sites are listed in another order (rotated / reversed) and must give the same coefficients; in 40% of draws the problem is solved again on a domain multiplied by 2^-70..-30 or 2^20..40 (knots and sites scaled, derivative data divided by the matching power) and must give the same coefficients and the rescaled evaluations (on huge domains with derivative end rows only: data rows reproduced, natural / clamped end conditions met to 5% of their own terms - partial pivoting is not row-scaling invariant); polynomial data are reproduced with all derivatives m <= k everywhere; library evaluation == coefficients x reference basis; dual abscissae (plain tagged and composite) return s', s'' as sensitivities, for the spline and for every basis function through the four public dual basis entry points; splines with dual data evaluated at a dual abscissa (m = 0 and m = 1) carry d/dx = next derivative, d/dy_j = unit-data spline (its derivative for m = 1) and, at second order, the mixed (x, y_j) terms; for dual data d s(x)/d y_j == row of the independently inverted collocation matrix (and the library's own unit-data spline), zero Hessian; the 3x3 spline-kind x abscissa-kind table (mapped_value and direct) returns matching kinds and refuses first/second-order mixes; unsolved evaluation, wrong site counts and y/tau length mismatches are errors. Non-trivial: k >= 3, >= 1 interior knot, and non-polynomial or dual data.".into()
+        "random (order 2-6, knot sequence as in C14, site layout: Greville sites with end rows of derivative order 0-2, or for order 4 with distinct interior knots the callers' natural / clamped layout [a,a,interior knots,b,b] with second / first derivative end conditions; data: random floats or samples of a random polynomial of degree < k with matching end-derivative values; data kind float / first-order / second-order with datum j tagged y{j}; optional 1-6 extra sites solved by least squares; 1-4 evaluation points as in C14). Site sets are admissible by construction; draws whose collocation matrix has cond >= 1e8 (own estimate) are skipped and counted. Oracle: coefficients x reference basis (C14 model) reproduce every data row and end condition; an object solved before on other data (and through a failed call) ends with bit-identical coefficients; in a third of the draws the interior data sites are listed in another order (rotated / reversed) and must give the same coefficients; in 40% of draws the problem is solved again on a domain multiplied by 2^-70..-30 or 2^20..40 (knots and sites scaled, derivative data divided by the matching power) and must give the same coefficients and the rescaled evaluations (on huge domains with derivative end rows only: data rows reproduced, natural / clamped end conditions met to 5% of their own terms - partial pivoting is not row-scaling invariant); polynomial data are reproduced with all derivatives m <= k everywhere; library evaluation == coefficients x reference basis; dual abscissae (plain tagged and composite) return s', s'' as sensitivities, for the spline and for every basis function through the four public dual basis entry points; splines with dual data evaluated at a dual abscissa (m = 0 and m = 1) carry d/dx = next derivative, d/dy_j = unit-data spline (its derivative for m = 1) and, at second order, the mixed (x, y_j) terms; for dual data d s(x)/d y_j == row of the independently inverted collocation matrix (and the library's own unit-data spline), zero Hessian; the 3x3 spline-kind x abscissa-kind table (mapped_value and direct) returns matching kinds and refuses first/second-order mixes; unsolved evaluation, wrong site counts and y/tau length mismatches are errors. A second stage evaluates splines with given coefficients on long knot sequences (270-390 knots, simple and repeated) at the first knot, at knots of every multiplicity, inside spans and at the right end, for every derivative order, against coefficients x basis functions. Non-trivial: k >= 3, >= 1 interior knot, and non-polynomial or dual data.".into()
     }
 
     fn floors(&self, tier: Tier) -> Vec<Floor> {
@@ -856,6 +925,7 @@ impl Property for C15 {
             Floor { label: "least-squares", min: n / 20 },
             Floor { label: "domain:rescaled-tiny", min: n / 20 },
             Floor { label: "sites:unsorted", min: n / 10 },
+            Floor { label: "long-knot-sequence:evaluation", min: n / 500 },
             Floor { label: "domain:rescaled-huge", min: n / 20 },
             Floor { label: "abscissa:composite", min: n / 2 },
         ]
